@@ -61,7 +61,7 @@ CHECKS.update({
             "Trusts the predicate in props/c12.rs (RFC latitude is DONT_CARE) and the reference QPACK codec.",
             "DESIGN.md §4 C12"),
     "C13": ("simquic+sched", "complete enumeration of builder configurations against a raw peer with reference parsing of the emitted SETTINGS; reference SETTINGS model vs applied values observed through public getters / HeaderTooBig for received payloads (permutations, duplicates, reserved ids, varint forms, truncations)",
-            "All 2024 builder configurations are built (no panic, one well-formed SETTINGS frame, exact values, grease iff on); thousands of received payloads (up to 55 entries, hundreds of bytes, delivered in pieces) are judged by the reference model and the applied values read back; defaults checked before SETTINGS arrive. Held-on-observed; the configuration space is covered completely.",
+            "All 2024 builder configurations are built, the server ones with the builder methods called as listed and in two shuffled orders (no panic, one well-formed SETTINGS frame, exact values, grease iff on); thousands of received payloads (up to 55 entries, hundreds of bytes, delivered in pieces) are judged by the reference model and the applied values read back; defaults checked before SETTINGS arrive. Held-on-observed; the configuration space is covered completely.",
             "Trusts refimpl/frames.rs::judge_settings; boolean settings > 1 and repeated unknown ids are don't-care; max_webtransport_sessions not observable on receive.",
             "DESIGN.md §4 C13"),
     "C14": ("simquic+sched", "online RFC 9114 reference checker over every byte stream written by real h3 endpoints running generated API programs under PRNG write-acceptance patterns; DATA frames matched against the buffers handed to send_data (Bytes and segmented Buf)",
@@ -72,7 +72,7 @@ CHECKS.update({
 
 CHECKS.update({
     "C04": ("simquic+sched", "reference control/uni-stream automaton + effect-history runtime monitor: a raw peer plays unidirectional stream scripts (types, varint forms, control frame sequences, FIN/RESET points) against the real endpoint under stream-credit shortage, back-pressure and a stalled grease stream; close code, driver result and GOAWAY effects compared",
-            "All control frame sequences up to length 3 x endings (open, FIN, RESET, FIN inside a frame) x roles are played completely, plus sampled multi-stream scripts, GOAWAY effect traces and credit/back-pressure modes; the observed connection error must be one some processing order can raise first (or none), and GOAWAY effects must appear exactly when sent. Held-on-observed.",
+            "All control frame sequences up to length 3 x endings (open, FIN, RESET, FIN inside a frame) x roles (servers also with a request in progress, which forbids stopping at GOAWAY) are played completely, plus sampled multi-stream scripts, GOAWAY effect traces and credit/back-pressure modes; the observed connection error must be one some processing order can raise first (or none), and GOAWAY effects must appear exactly when sent. Held-on-observed.",
             "Trusts the automaton in props/c04.rs; overlapping rules accept any applicable code; push streams, CANCEL_PUSH to a client and QPACK stream closure are don't-care; a server whose accept() returned None legitimately stops processing.",
             "DESIGN.md §4 C04"),
 })
